@@ -14,6 +14,7 @@ sys.path.insert(0, str(Path(__file__).resolve().parent.parent))
 from harness.common import Report  # noqa: E402
 
 LEVELS = {
+    "C06": "proof",
     "C16": "translation_validation",
 }
 
